@@ -5,7 +5,9 @@
     handler does not truncate, what WriteOperand truncates, wrap-around.
     Definitions only. *)
 From Coq Require Import List NArith Bool Arith.
+From Coq Require Import ZArith.
 From VIsa Require Import Lanes.
+From VIsa Require IsaState ExecImpl ExecImplV.
 Import ListNotations.
 Open Scope N_scope.
 
@@ -71,16 +73,28 @@ Definition flat_addr (o : ops) (u : nat -> N) (rw : row) : N :=
 Definition ds_addr (o : ops) (u : nat -> N) (rw : row) (off : N) : N :=
   ((rd u rw (o_addr o)) mod B32 + off) mod B32.
 
-(** ** The representative handlers *)
+(** ** The transcribed handlers *)
+
+(** post-processing of FLAT load data *)
+Inductive ldkind := LdRaw | LdU8 | LdS8 | LdU16.
 
 Inductive hid :=
-| H_mov | H_not | H_add_co_gcn3 | H_add_co_cdna3 | H_sub_co_gcn3 | H_addc_gcn3 | H_addc_cdna3
+(* own transcriptions of integer ALU handlers (after the C03 fixes on main the
+   GCN3 and CDNA3 variants of these agree, except where two ids are given) *)
+| H_mov | H_not | H_add_co | H_sub_co_gcn3 | H_addc
 | H_cndmask | H_cndmask_e64 | H_lshlrev | H_and
-| H_cmp_lt_u32_gcn3 | H_cmp_lt_u32_cdna3 | H_cmp_eq_u32
-| H_cmp_lt_u32_e64_gcn3 | H_cmp_lt_u32_e64_cdna3 | H_cmp_eq_u32_e64
-| H_mad_u64_u32_gcn3 | H_mad_u64_u32_cdna3 | H_add3 | H_add_co_e64 | H_addc_e64
-| H_flat_load_dword | H_flat_load_dwordx2 | H_flat_store_dword | H_flat_store_dwordx2
-| H_ds_read_b32 | H_ds_write_b32 | H_ds_write2_b32 | H_ds_read2_b32.
+| H_cmp_lt_u32 | H_cmp_eq_u32 | H_cmp_lt_u32_e64 | H_cmp_eq_u32_e64
+| H_mad_u64_u32 | H_add3 | H_add_co_e64 | H_addc_e64
+| H_lshlrev_b16 | H_add_u16 | H_cmp_gt_i16
+(* any row of the C03 builder's table ExecImplV.vdesc_of, used through [desc] *)
+| H_v (a : IsaState.arch) (f : IsaState.format) (op : Z)
+(* memory and LDS handlers; [n] = bytes moved, [w] = element width of the "2" forms *)
+| H_flat_load (n : nat) (k : ldkind)
+| H_flat_store (n : nat)
+| H_ds_read (n : nat) (useoff : bool)
+| H_ds_read2 (w : nat)
+| H_ds_write (n : nat)
+| H_ds_write2 (w : nat).
 
 Definition b2n (b : bool) : N := if b then 1 else 0.
 
@@ -91,57 +105,77 @@ Definition alu_core (h : hid) (a b c : N) (mb : bool) : option N * option bool :
   match h with
   | H_mov => (Some a, None)
   | H_not => (Some (B32 - 1 - a32), None)
-  | H_add_co_gcn3 => (Some ((a32 + b32) mod B32), Some (N.leb B32 (a32 + b32)))
-  | H_add_co_cdna3 | H_add_co_e64 =>
-      let r := (a + b) mod B64 in (Some (r mod B32), Some (N.leb B32 r))
+  | H_add_co | H_add_co_e64 => (Some ((a32 + b32) mod B32), Some (N.leb B32 (a32 + b32)))
   | H_sub_co_gcn3 => (Some ((a32 + B32 - b32) mod B32), Some (N.ltb a32 b32))
-  | H_addc_gcn3 =>
-      (* if src0 > math.MaxUint32-carry-src1 (uint64 arithmetic) *)
-      let bound := (B32 - 1 - b2n mb + (B64 - b mod B64)) mod B64 in
-      (Some ((a + b + b2n mb) mod B64), Some (N.ltb bound a))
-  | H_addc_cdna3 | H_addc_e64 =>
-      let r := (a + b + b2n mb) mod B64 in (Some (r mod B32), Some (N.leb B32 r))
+  | H_addc | H_addc_e64 =>
+      let r := a32 + b32 + b2n mb in (Some (r mod B32), Some (N.leb B32 r))
   | H_cndmask | H_cndmask_e64 => (Some (if mb then b else a), None)
   | H_lshlrev => (Some ((b32 * 2 ^ (a32 mod 32)) mod B32), None)
   | H_and => (Some (N.land a b), None)
-  | H_cmp_lt_u32_gcn3 | H_cmp_lt_u32_e64_gcn3 => (None, Some (N.ltb a b))
-  | H_cmp_lt_u32_cdna3 | H_cmp_lt_u32_e64_cdna3 => (None, Some (N.ltb a32 b32))
+  | H_cmp_lt_u32 | H_cmp_lt_u32_e64 => (None, Some (N.ltb a32 b32))
   | H_cmp_eq_u32 | H_cmp_eq_u32_e64 => (None, Some (N.eqb a32 b32))
-  | H_mad_u64_u32_gcn3 => (Some ((a * b + c) mod B64), None)
-  | H_mad_u64_u32_cdna3 => (Some ((a32 * b32 + c) mod B64), None)
+  | H_mad_u64_u32 => (Some ((a32 * b32 + c) mod B64), None)
   | H_add3 => (Some ((a32 + b32 + c32) mod B32), None)
+  | H_lshlrev_b16 => (Some (((b mod 65536) * 2 ^ (a mod 16)) mod 65536), None)
+  | H_add_u16 => (Some ((a mod 65536 + b mod 65536) mod 65536), None)
+  | H_cmp_gt_i16 =>  (* int16(a) > int16(b): compare after flipping the sign bit *)
+      (None, Some (N.ltb ((b mod 65536 + 32768) mod 65536) ((a mod 65536 + 32768) mod 65536)))
   | _ => (None, None)
   end.
 
+(** WriteOperand of a Z value (two's complement wrap, as ExecImplV.wrvn) *)
+Definition wrz (o : opnd) (v : Z) : list (nat * N) :=
+  match o with
+  | OV r c => if Nat.ltb c 2 then [(r, Z.to_N (v mod 4294967296)%Z)]
+              else [(r, Z.to_N (v mod 4294967296)%Z); (S r, Z.to_N ((v / 4294967296) mod 4294967296)%Z)]
+  | _ => []
+  end.
+
+(** a row of ExecImplV as a per-lane function *)
+Definition v_core (d : ExecImplV.vdesc) (o : ops) : lane_fn := fun u g l li =>
+  let rw := li_row li in
+  let r := ExecImplV.vd_f d (Z.of_N (rd u rw (o_s0 o))) (Z.of_N (rd u rw (o_s1 o))) (Z.of_N (rd u rw (o_s2 o))) (li_bit li) in
+  mkLO (if Z.ltb (ExecImplV.vd_dc d) 0 then [] else match fst r with Some v => wrz (o_dst o) v | None => [] end)
+       (match ExecImplV.vd_mask d with ExecImplV.MNone => None | _ => Some (snd r) end) [] [] [] [].
+
 Definition is_mem (h : hid) : bool :=
-  match h with
-  | H_flat_load_dword | H_flat_load_dwordx2 | H_flat_store_dword | H_flat_store_dwordx2
-  | H_ds_read_b32 | H_ds_write_b32 | H_ds_write2_b32 | H_ds_read2_b32 => true
-  | _ => false
+  match h with H_flat_load _ _ | H_ds_read _ _ | H_ds_read2 _ => true | _ => false end.
+
+Definition sext8 (b : N) : N := if N.leb 128 b then b + 4294967040 else b.
+Definition word_bytes (w : N) : list N := map (byte_of w) (seq 0 4).
+Definition ld_post (k : ldkind) (bs : list N) : list N :=
+  match k with
+  | LdRaw => bs
+  | LdU8 => [nth 0 bs 0; 0; 0; 0]
+  | LdS8 => word_bytes (sext8 (nth 0 bs 0))
+  | LdU16 => [nth 0 bs 0; nth 1 bs 0; 0; 0]
   end.
 
 Definition hfn (h : hid) (o : ops) : lane_fn := fun u g l li =>
   let rw := li_row li in
   match h with
-  | H_flat_load_dword | H_flat_load_dwordx2 =>
-      let n := match h with H_flat_load_dword => 4%nat | _ => 8%nat end in
+  | H_flat_load n k =>
       let a := flat_addr o u rw in
-      mkLO (wr_bytes (o_dst o) (ld g a n)) None [] [] (addr_seq a n) []
-  | H_flat_store_dword | H_flat_store_dwordx2 =>
-      let n := match h with H_flat_store_dword => 4%nat | _ => 8%nat end in
+      mkLO (wr_bytes (o_dst o) (ld_post k (ld g a n))) None [] [] (addr_seq a n) []
+  | H_flat_store n =>
       mkLO [] None (st_list (flat_addr o u rw) (reg_bytes rw (o_data o) n)) [] [] []
-  | H_ds_read_b32 =>
-      let a := ds_addr o u rw (o_off0 o) in
-      mkLO (wr_bytes (o_dst o) (ld l a 4)) None [] [] [] (addr_seq a 4)
-  | H_ds_read2_b32 =>
-      let a0 := ds_addr o u rw (o_off0 o * 4) in
-      let a1 := ds_addr o u rw (o_off1 o * 4) in
-      mkLO (wr_bytes (o_dst o) (ld l a0 4 ++ ld l a1 4)) None [] [] [] (addr_seq a0 4 ++ addr_seq a1 4)
-  | H_ds_write_b32 =>
-      mkLO [] None [] (st_list (ds_addr o u rw (o_off0 o)) (reg_bytes rw (o_data o) 4)) [] []
-  | H_ds_write2_b32 =>
-      mkLO [] None [] (st_list (ds_addr o u rw (o_off0 o * 4)) (reg_bytes rw (o_data o) 4) ++
-                       st_list (ds_addr o u rw (o_off1 o * 4)) (reg_bytes rw (o_data1 o) 4)) [] []
+  | H_ds_read n useoff =>
+      let a := ds_addr o u rw (if useoff then o_off0 o else 0) in
+      mkLO (wr_bytes (o_dst o) (ld l a n)) None [] [] [] (addr_seq a n)
+  | H_ds_read2 w =>
+      let a0 := ds_addr o u rw (o_off0 o * N.of_nat w) in
+      let a1 := ds_addr o u rw (o_off1 o * N.of_nat w) in
+      mkLO (wr_bytes (o_dst o) (ld l a0 w ++ ld l a1 w)) None [] [] [] (addr_seq a0 w ++ addr_seq a1 w)
+  | H_ds_write n =>
+      mkLO [] None [] (st_list (ds_addr o u rw (o_off0 o)) (reg_bytes rw (o_data o) n)) [] []
+  | H_ds_write2 w =>
+      mkLO [] None [] (st_list (ds_addr o u rw (o_off0 o * N.of_nat w)) (reg_bytes rw (o_data o) w) ++
+                       st_list (ds_addr o u rw (o_off1 o * N.of_nat w)) (reg_bytes rw (o_data1 o) w)) [] []
+  | H_v a f op =>
+      match ExecImplV.vdesc_of a f op with
+      | Some d => v_core d o u g l li
+      | None => mkLO [] None [] [] [] []
+      end
   | _ =>
       let r := alu_core h (rd u rw (o_s0 o)) (rd u rw (o_s1 o)) (rd u rw (o_s2 o)) (li_bit li) in
       mkLO (match fst r with Some v => wr (o_dst o) v | None => [] end) (snd r) [] [] [] []
@@ -150,20 +184,40 @@ Definition hfn (h : hid) (o : ops) : lane_fn := fun u g l li =>
 Definition msrc_of (x : opnd) : msrc := match x with OS n _ => MSgpr n | OVcc => MVcc | _ => MNone end.
 Definition mdst_of (x : opnd) : mdst := match x with OS n _ => DSgpr n | OVcc => DVcc | _ => DNone end.
 
-Definition hdesc (h : hid) (o : ops) : desc :=
-  let f := hfn h o in
+Definition hsrc (h : hid) (o : ops) : msrc :=
   match h with
-  | H_add_co_gcn3 | H_add_co_cdna3 | H_sub_co_gcn3 => mkD f MNone false DVcc false
-  | H_addc_gcn3 => mkD f MVcc false DVcc false
-  | H_addc_cdna3 => mkD f MVcc true DVcc true
-  | H_cndmask => mkD f MVcc false DNone false
-  | H_cndmask_e64 => mkD f (msrc_of (o_s2 o)) false DNone false
-  | H_cmp_lt_u32_gcn3 | H_cmp_lt_u32_cdna3 | H_cmp_eq_u32 => mkD f MNone false DVcc false
-  | H_cmp_lt_u32_e64_gcn3 | H_cmp_lt_u32_e64_cdna3 | H_cmp_eq_u32_e64 => mkD f MNone false (mdst_of (o_dst o)) false
-  | H_add_co_e64 => mkD f MNone false (mdst_of (o_sdst o)) false
-  | H_addc_e64 => mkD f (msrc_of (o_s2 o)) false (mdst_of (o_sdst o)) false
-  | _ => mkD f MNone false DNone false
+  | H_addc | H_cndmask => MVcc
+  | H_cndmask_e64 | H_addc_e64 => msrc_of (o_s2 o)
+  | H_v a f op =>
+      match ExecImplV.vdesc_of a f op with
+      | Some d => match ExecImplV.vd_cin d with
+                  | ExecImplV.CNone => MNone | ExecImplV.CVcc => MVcc | ExecImplV.CSrc2 => msrc_of (o_s2 o) end
+      | None => MNone
+      end
+  | _ => MNone
   end.
+
+Definition hdst (h : hid) (o : ops) : mdst :=
+  match h with
+  | H_add_co | H_sub_co_gcn3 | H_addc | H_cmp_lt_u32 | H_cmp_eq_u32 | H_cmp_gt_i16 => DVcc
+  | H_cmp_lt_u32_e64 | H_cmp_eq_u32_e64 => mdst_of (o_dst o)
+  | H_add_co_e64 | H_addc_e64 => mdst_of (o_sdst o)
+  | H_v a f op =>
+      match ExecImplV.vdesc_of a f op with
+      | Some d => match ExecImplV.vd_mask d with
+                  | ExecImplV.MNone => DNone | ExecImplV.MVcc => DVcc
+                  | ExecImplV.MDst => mdst_of (o_dst o) | ExecImplV.MSdst => mdst_of (o_sdst o) end
+      | None => DNone
+      end
+  | _ => DNone
+  end.
+
+(** every handler of both ALUs now reads its carry-in from a snapshot and
+    starts its mask accumulator at 0 (inactive lanes end up cleared) *)
+Definition hdesc (h : hid) (o : ops) : desc := mkD (hfn h o) (hsrc h o) false (hdst h o) false.
+
+Definition modelled (h : hid) : bool :=
+  match h with H_v a f op => match ExecImplV.vdesc_of a f op with Some _ => true | None => false end | _ => true end.
 
 (** ** Recorded cases *)
 
@@ -193,6 +247,7 @@ Definition list_eqb (a b : list N) : bool := Nat.eqb (length a) (length b) && fo
 
 (** 0 = agreement; otherwise the first component that differs *)
 Definition check_case (c : icase) : N :=
+  if negb (modelled (c_h c)) then 99 else
   let r := seq_loop (hdesc (c_h c) (case_ops c)) (case_state c) in
   if negb (Nat.eqb (length (e_vgpr c)) NL && forallb (fun p => list_eqb (fst p) (snd p)) (combine (rows_of r) (e_vgpr c))) then 1
   else if negb (list_eqb (map (sgpr r) (seq 0 NS)) (e_sgpr c)) then 2
